@@ -77,7 +77,8 @@ func GenFragmentTLS(r *rng.R) *scen.Scenario {
 		mkSecret(gwNS, "tls-mal", 4, secMalformed), mkSecret(gwNS, "tls-opaque", 5, secOpaque),
 		mkSecret(gwNS, "tls-swapped", 9, secSwapped),
 		p.TLSSecret(otherNS, "tls-a", 6), p.TLSSecret(otherNS, "tls-x", 11), mkSecret(otherNS, "tls-mal", 13, secMalformed))
-	good := []string{"tls-a", "tls-a", "tls-b", "tls-c"}
+	s.Objs = append(s.Objs, p.TLSSecret(gwNS, "example.com-tls", 21), p.TLSSecret(gwNS, "example.org-tls", 22), p.TLSSecret(gwNS, "edge.pem", 23))
+	good := []string{"tls-a", "tls-a", "tls-b", "tls-c", "example.com-tls", "example.org-tls", "edge.pem"}
 	bad := []string{"tls-mal", "tls-opaque", "tls-swapped", "tls-missing"}
 	cross := []string{otherNS + "/tls-a", otherNS + "/tls-x", otherNS + "/tls-x", otherNS + "/tls-mal", otherNS + "/tls-missing"}
 	gwGroup := "gateway.networking.k8s.io"
